@@ -578,7 +578,7 @@ def check(run):
                       "docs/events.rst documents the constructor Event.shutdown() (shortcut for "
                       "Event('_ctrl', 'shutdown')); it does not exist", clause='documented_Event_shutdown',
                       concrete=True)
-    cases = list(DIRECTED) + [gen_case(run.rng) for _ in range(250 if run.tier == 'quick' else 4000)]
+    cases = list(DIRECTED) + [gen_case(run.rng) for _ in range(250 if run.tier == 'quick' else 16000)]
     for c in cases:
         run.count('cause_%s' % c['cause'])
         run.count('instant_' + c['instant'])
